@@ -84,4 +84,415 @@ example : startOffset (consumedOf 5) 5 9 .latest = .ok 5 := by simp [startOffset
 example : startOffset (consumedOf 4) 5 9 .latest = .ok 9 := by simp [startOffset, consumedOf]
 example : startOffset (consumedOf 10) 5 9 .earliest = .ok 5 := by simp [startOffset, consumedOf]
 
+/-! ## every assigned partition at once: the decision loops of `load_fetch_states` (consumer/state.rs:241-354) -/
+
+theorem aget_set_self {α β} [DecidableEq α] (m : List (α × β)) (k : α) (v : β) : assocGet (assocSet m k v) k = some v := by
+  induction m with
+  | nil => simp [assocSet, assocGet]
+  | cons x xs ih =>
+    obtain ⟨k', v'⟩ := x
+    by_cases h : k' = k
+    · simp [assocSet, assocGet, h]
+    · simp only [assocSet, h, if_false]
+      simp only [assocGet, List.find?, h, decide_false] at ih ⊢
+      exact ih
+
+theorem aget_set_other {α β} [DecidableEq α] (m : List (α × β)) (k k2 : α) (v : β) (hne : k2 ≠ k) :
+    assocGet (assocSet m k v) k2 = assocGet m k2 := by
+  induction m with
+  | nil => simp [assocSet, assocGet, Ne.symm hne]
+  | cons x xs ih =>
+    obtain ⟨k', v'⟩ := x
+    by_cases h : k' = k
+    · subst h; simp [assocSet, assocGet, Ne.symm hne]
+    · simp only [assocSet, h, if_false]
+      by_cases h2 : k' = k2
+      · simp [assocGet, h2]
+      · simp only [assocGet, List.find?, h2, decide_false] at ih ⊢
+        exact ih
+
+variable {σ : Type}
+
+/-- the table key of an assigned partition -/
+def keyOf (as : List (Bytes × List Int)) (tp : Bytes × Int) : TP := ⟨(topicRef as tp.1).getD 0, tp.2⟩
+
+/-- what the broker reported for a partition in an Offsets reply (indexed), −1 when it said nothing -/
+def reported (tbl : List (Bytes × List (Int × Int))) (tp : Bytes × Int) : Int :=
+  ((assocGet tbl tp.1).bind (assocGet · tp.2)).getD (-1)
+
+/-- the decision for one assigned partition, from the loaded commits and the two Offsets replies -/
+def decide1 (fb : Fallback) (as : List (Bytes × List Int)) (consumed : List (TP × Consumed))
+    (latest earliest : List (Bytes × List (Int × Int))) (tp : Bytes × Int) : Except Err Int :=
+  startOffset ((assocGet consumed (keyOf as tp)).map (·.offset)) (reported earliest tp) (reported latest tp) fb
+
+theorem C07_go2_ok (fb : Fallback) (as : List (Bytes × List Int)) (consumed : List (TP × Consumed)) (mb : Int)
+    (latest earliest : List (Bytes × List (Int × Int))) :
+    ∀ (tps : List (Bytes × Int)) (acc : List (TP × FetchState)) (w w' : W σ) (fo : List (TP × FetchState)),
+      loadState.go2 fb as consumed mb latest earliest tps acc w = (w', Outcome.ok fo) →
+      w' = w ∧ ∀ k, assocGet fo k =
+        match tps.reverse.find? (fun tp => keyOf as tp = k) with
+        | some tp => (match decide1 fb as consumed latest earliest tp with | .ok o => some ⟨o, mb⟩ | .error _ => none)
+        | none => assocGet acc k := by
+  intro tps
+  induction tps with
+  | nil =>
+    intro acc w w' fo h
+    simp only [loadState.go2, pure, Prod.mk.injEq, Outcome.ok.injEq] at h
+    obtain ⟨h1, h2⟩ := h
+    subst h1 h2
+    simp
+  | cons tp r ih =>
+    intro acc w w' fo h
+    obtain ⟨t, p⟩ := tp
+    simp only [loadState.go2] at h
+    change (match decide1 fb as consumed latest earliest (t, p) with
+      | Except.ok o => loadState.go2 fb as consumed mb latest earliest r (assocSet acc (keyOf as (t, p)) ⟨o, mb⟩)
+      | Except.error e => M.fail e) w = _ at h
+    cases ho : decide1 fb as consumed latest earliest (t, p) with
+    | ok o =>
+      rw [ho] at h
+      obtain ⟨hw, hk⟩ := ih _ _ _ _ h
+      refine ⟨hw, fun k => ?_⟩
+      rw [hk k, List.reverse_cons, List.find?_append]
+      cases hf : r.reverse.find? (fun tp => keyOf as tp = k) with
+      | some tp' => simp
+      | none =>
+        simp only [Option.none_or, List.find?_cons, List.find?_nil]
+        by_cases hkey : keyOf as (t, p) = k
+        · simp only [hkey, decide_true]
+          rw [ho]; subst hkey
+          exact aget_set_self _ _ _
+        · simp only [hkey, decide_false]
+          exact aget_set_other _ _ _ _ (Ne.symm hkey)
+    | error e => rw [ho] at h; simp [M.fail] at h
+
+/-- the loop never panics or diverges, and a failure is the failure of some assigned partition's decision -/
+theorem C07_go2_err (fb : Fallback) (as : List (Bytes × List Int)) (consumed : List (TP × Consumed)) (mb : Int)
+    (latest earliest : List (Bytes × List (Int × Int))) :
+    ∀ (tps : List (Bytes × Int)) (acc : List (TP × FetchState)) (w : W σ),
+      (∃ fo, loadState.go2 fb as consumed mb latest earliest tps acc w = (w, Outcome.ok fo)) ∨
+      (∃ e, loadState.go2 fb as consumed mb latest earliest tps acc w = (w, Outcome.err e) ∧
+        ∃ tp ∈ tps, decide1 fb as consumed latest earliest tp = .error e) := by
+  intro tps
+  induction tps with
+  | nil => intro acc w; left; exact ⟨acc, rfl⟩
+  | cons tp r ih =>
+    intro acc w
+    obtain ⟨t, p⟩ := tp
+    simp only [loadState.go2]
+    change (∃ fo, (match decide1 fb as consumed latest earliest (t, p) with
+      | Except.ok o => loadState.go2 fb as consumed mb latest earliest r (assocSet acc (keyOf as (t, p)) ⟨o, mb⟩)
+      | Except.error e => M.fail e) w = _) ∨ (∃ e, (match decide1 fb as consumed latest earliest (t, p) with
+      | Except.ok o => loadState.go2 fb as consumed mb latest earliest r (assocSet acc (keyOf as (t, p)) ⟨o, mb⟩)
+      | Except.error e => M.fail e) w = _ ∧ _)
+    cases ho : decide1 fb as consumed latest earliest (t, p) with
+    | ok o =>
+      simp only []
+      rcases ih (assocSet acc (keyOf as (t, p)) ⟨o, mb⟩) w with h | ⟨e, h, tp, hm, hd⟩
+      · left; exact h
+      · right; exact ⟨e, h, tp, List.mem_cons_of_mem _ hm, hd⟩
+    | error e =>
+      right; exact ⟨e, rfl, (t, p), List.mem_cons_self, ho⟩
+
+/-- a successful load means every assigned partition's decision succeeded -/
+theorem C07_go2_all_ok (fb : Fallback) (as : List (Bytes × List Int)) (consumed : List (TP × Consumed)) (mb : Int)
+    (latest earliest : List (Bytes × List (Int × Int))) :
+    ∀ (tps : List (Bytes × Int)) (acc : List (TP × FetchState)) (w w' : W σ) (fo : List (TP × FetchState)),
+      loadState.go2 fb as consumed mb latest earliest tps acc w = (w', Outcome.ok fo) →
+      ∀ tp ∈ tps, ∃ o, decide1 fb as consumed latest earliest tp = .ok o := by
+  intro tps
+  induction tps with
+  | nil => intro acc w w' fo _ tp htp; cases htp
+  | cons tp0 r ih =>
+    intro acc w w' fo h tp htp
+    obtain ⟨t, p⟩ := tp0
+    simp only [loadState.go2] at h
+    change (match decide1 fb as consumed latest earliest (t, p) with
+      | Except.ok o => loadState.go2 fb as consumed mb latest earliest r (assocSet acc (keyOf as (t, p)) ⟨o, mb⟩)
+      | Except.error e => M.fail e) w = _ at h
+    cases ho : decide1 fb as consumed latest earliest (t, p) with
+    | ok o =>
+      rw [ho] at h
+      rcases List.mem_cons.mp htp with rfl | hm
+      · exact ⟨o, ho⟩
+      · exact ih _ _ _ _ h tp hm
+    | error e => rw [ho] at h; simp [M.fail] at h
+
+theorem nodup_map_inj {α β} (f : α → β) : ∀ (l : List α), (l.map f).Nodup → ∀ x ∈ l, ∀ y ∈ l, f x = f y → x = y := by
+  intro l
+  induction l with
+  | nil => intro _ x hx; cases hx
+  | cons a l ih =>
+    intro hnd x hx y hy hxy
+    rw [List.map_cons, List.nodup_cons] at hnd
+    rcases List.mem_cons.mp hx with rfl | hx' <;> rcases List.mem_cons.mp hy with rfl | hy'
+    · rfl
+    · exact absurd (hxy ▸ List.mem_map_of_mem hy') hnd.1
+    · exact absurd (hxy ▸ List.mem_map_of_mem hx') hnd.1
+    · exact ih hnd.2 x hx' y hy' hxy
+
+theorem find_rev_nodup {α β} [DecidableEq β] (f : α → β) (l : List α) (hnd : (l.map f).Nodup) (x : α) (hx : x ∈ l) :
+    l.reverse.find? (fun y => f y = f x) = some x := by
+  have hmem : x ∈ l.reverse := List.mem_reverse.mpr hx
+  cases hf : l.reverse.find? (fun y => f y = f x) with
+  | none =>
+    have := List.find?_eq_none.mp hf x hmem
+    simp at this
+  | some y =>
+    have h1 := List.find?_some hf
+    have h2 : y ∈ l := List.mem_reverse.mp (List.mem_of_find?_eq_some hf)
+    simp only [decide_eq_true_eq] at h1
+    rw [nodup_map_inj _ _ hnd _ h2 _ hx h1]
+
+/-- **every assigned partition** (multi-topic, multi-partition): when the keys of the assigned partitions are pairwise
+    distinct, a successful load leaves, for each of them, exactly the specified start offset and the configured fetch size;
+    the world (wire) is untouched by the decision loop -/
+theorem C07_assignment (fb : Fallback) (as : List (Bytes × List Int)) (consumed : List (TP × Consumed)) (mb : Int)
+    (latest earliest : List (Bytes × List (Int × Int))) (tps : List (Bytes × Int)) (w w' : W σ) (fo : List (TP × FetchState))
+    (hnd : (tps.map (keyOf as)).Nodup)
+    (h : loadState.go2 fb as consumed mb latest earliest tps [] w = (w', Outcome.ok fo)) :
+    w' = w ∧
+    (∀ tp ∈ tps, ∀ c, (assocGet consumed (keyOf as tp)).map (·.offset) = consumedOf c →
+      ∃ o, specStart (committedOf c) (reported earliest tp) (reported latest tp) fb = .ok o ∧
+           assocGet fo (keyOf as tp) = some ⟨o, mb⟩) ∧
+    (∀ k, (∀ tp ∈ tps, keyOf as tp ≠ k) → assocGet fo k = none) := by
+  obtain ⟨hw, hk⟩ := C07_go2_ok fb as consumed mb latest earliest tps [] w w' fo h
+  refine ⟨hw, ?_, ?_⟩
+  · intro tp htp c hc
+    have hfind := find_rev_nodup (keyOf as) tps hnd tp htp
+    have hk' := hk (keyOf as tp)
+    rw [hfind] at hk'
+    obtain ⟨o, hd⟩ := C07_go2_all_ok fb as consumed mb latest earliest tps [] w w' fo h tp htp
+    simp only [hd] at hk'
+    refine ⟨o, ?_, hk'⟩
+    rw [← C07_start, ← hc]; exact hd
+  · intro k hk2
+    have hfind : tps.reverse.find? (fun tp' => keyOf as tp' = k) = none := by
+      apply List.find?_eq_none.mpr
+      intro tp' hm; simp only [decide_eq_true_eq]; exact hk2 tp' (List.mem_reverse.mp hm)
+    have := hk k
+    rw [hfind] at this
+    simpa [assocGet] using this
+
+/-! ### no group, or nothing committed for any partition: every partition starts at the fallback position -/
+
+theorem fold_fallback (tr : Nat) (mb : Int) (f : Int → Int) : ∀ (ps : List Int) (acc : List (TP × FetchState)) (k : TP),
+    assocGet (ps.foldl (fun acc p => assocSet acc ⟨tr, p⟩ ⟨f p, mb⟩) acc) k =
+      match ps.reverse.find? (fun p => (⟨tr, p⟩ : TP) = k) with
+      | some p => some ⟨f p, mb⟩
+      | none => assocGet acc k := by
+  intro ps
+  induction ps with
+  | nil => intro acc k; simp
+  | cons p r ih =>
+    intro acc k
+    rw [List.foldl_cons, ih, List.reverse_cons, List.find?_append]
+    cases hf : r.reverse.find? (fun p => (⟨tr, p⟩ : TP) = k) with
+    | some p' => simp
+    | none =>
+      simp only [Option.none_or, List.find?_cons, List.find?_nil]
+      by_cases hkey : (⟨tr, p⟩ : TP) = k
+      · simp only [hkey, decide_true]; subst hkey; exact aget_set_self _ _ _
+      · simp only [hkey, decide_false]; exact aget_set_other _ _ _ _ (Ne.symm hkey)
+
+/-- the group-less loop: a successful load leaves, for every assigned partition, the offset the broker reported for the
+    fallback position (−1 when it reported none) and the configured fetch size, and nothing else -/
+theorem C07_go_ok (as : List (Bytes × List Int)) (mb : Int) (offsets : List (Bytes × List (Int × Int))) :
+    ∀ (subs : List (Bytes × List Int)) (acc : List (TP × FetchState)) (w w' : W σ) (fo : List (TP × FetchState)),
+      loadState.go as mb offsets subs acc w = (w', Outcome.ok fo) →
+      w' = w ∧ (∀ s ∈ subs, (assocGet offsets s.1).isSome) ∧ ∀ k, assocGet fo k =
+        match (subs.flatMap fun s => s.2.map fun p => (s.1, p)).reverse.find? (fun tp => keyOf as tp = k) with
+        | some tp => some ⟨reported offsets tp, mb⟩
+        | none => assocGet acc k := by
+  intro subs
+  induction subs with
+  | nil =>
+    intro acc w w' fo h
+    simp only [loadState.go, pure, Prod.mk.injEq, Outcome.ok.injEq] at h
+    obtain ⟨h1, h2⟩ := h
+    subst h1 h2
+    simp
+  | cons s r ih =>
+    intro acc w w' fo h
+    obtain ⟨t, ps⟩ := s
+    simp only [loadState.go] at h
+    cases ho : assocGet offsets t with
+    | none => rw [ho] at h; simp [M.fail] at h
+    | some offs =>
+      rw [ho] at h
+      obtain ⟨hw, hall, hk⟩ := ih _ _ _ _ h
+      refine ⟨hw, ?_, fun k => ?_⟩
+      · intro s hs
+        rcases List.mem_cons.mp hs with rfl | hs'
+        · simp [ho]
+        · exact hall s hs'
+      · rw [hk k, List.flatMap_cons, List.reverse_append, List.find?_append]
+        cases hf : (r.flatMap fun s => s.2.map fun p => (s.1, p)).reverse.find? (fun tp => keyOf as tp = k) with
+        | some tp' => simp
+        | none =>
+          simp only [Option.none_or]
+          rw [fold_fallback, ← List.map_reverse, List.find?_map]
+          have hfun : ((fun tp => decide (keyOf as tp = k)) ∘ fun p => (t, p))
+              = fun p => decide ((⟨(topicRef as t).getD 0, p⟩ : TP) = k) := by
+            funext p; simp only [Function.comp, keyOf]; congr
+          rw [hfun]
+          cases hf2 : ps.reverse.find? (fun p => decide ((⟨(topicRef as t).getD 0, p⟩ : TP) = k)) with
+          | none => simp
+          | some p => simp [reported, ho]
+
+/-- **every assigned partition, nothing committed / no group**: each starts at what the broker reported for the fallback -/
+theorem C07_assignment_fallback (as : List (Bytes × List Int)) (mb : Int) (offsets : List (Bytes × List (Int × Int)))
+    (subs : List (Bytes × List Int)) (w w' : W σ) (fo : List (TP × FetchState))
+    (hnd : ((subs.flatMap fun s => s.2.map fun p => (s.1, p)).map (keyOf as)).Nodup)
+    (h : loadState.go as mb offsets subs [] w = (w', Outcome.ok fo)) :
+    w' = w ∧
+    (∀ s ∈ subs, ∀ p ∈ s.2, assocGet fo (keyOf as (s.1, p)) = some ⟨reported offsets (s.1, p), mb⟩) ∧
+    (∀ k, (∀ s ∈ subs, ∀ p ∈ s.2, keyOf as (s.1, p) ≠ k) → assocGet fo k = none) := by
+  obtain ⟨hw, _, hk⟩ := C07_go_ok as mb offsets subs [] w w' fo h
+  refine ⟨hw, ?_, ?_⟩
+  · intro s hs p hp
+    have hmem : (s.1, p) ∈ subs.flatMap fun s => s.2.map fun p => (s.1, p) :=
+      List.mem_flatMap.mpr ⟨s, hs, List.mem_map.mpr ⟨p, hp, rfl⟩⟩
+    have hfind := find_rev_nodup (keyOf as) _ hnd _ hmem
+    have := hk (keyOf as (s.1, p))
+    rw [hfind] at this
+    exact this
+  · intro k hk2
+    have hfind : (subs.flatMap fun s => s.2.map fun p => (s.1, p)).reverse.find? (fun tp' => keyOf as tp' = k) = none := by
+      apply List.find?_eq_none.mpr
+      intro tp' hm; simp only [decide_eq_true_eq]
+      obtain ⟨s, hs, hm2⟩ := List.mem_flatMap.mp (List.mem_reverse.mp hm)
+      obtain ⟨p, hp, rfl⟩ := List.mem_map.mp hm2
+      exact hk2 s hs p hp
+    have := hk k
+    rw [hfind] at this
+    simpa [assocGet] using this
+
+/-! ### non-vacuity: a two-topic assignment with one commit inside the range, one outside, one absent -/
+def exAs : List (Bytes × List Int) := [([97], [0, 1]), ([98], [0])]
+def exTps : List (Bytes × Int) := [([97], 0), ([97], 1), ([98], 0)]
+def exConsumed : List (TP × Consumed) := [(⟨0, 0⟩, ⟨4, false⟩), (⟨0, 1⟩, ⟨99, false⟩)]
+def exLatest : List (Bytes × List (Int × Int)) := [([97], [(0, 9), (1, 9)]), ([98], [(0, 7)])]
+def exEarliest : List (Bytes × List (Int × Int)) := [([97], [(0, 2), (1, 2)]), ([98], [(0, 3)])]
+example : (exTps.map (keyOf exAs)).Nodup := by decide
+example (w : W Unit) : loadState.go2 .earliest exAs exConsumed 1000 exLatest exEarliest exTps [] w
+    = (w, Outcome.ok [(⟨0, 0⟩, ⟨5, 1000⟩), (⟨0, 1⟩, ⟨2, 1000⟩), (⟨1, 0⟩, ⟨3, 1000⟩)]) := by rfl
+/-! ## from the coordinator's reply (`load_consumed_offsets`, consumer/state.rs:191-237) to the decision -/
+
+/-- the reported commits that count: assigned topic, offset other than −1; as (key, reported offset) -/
+def counted (as : List (Bytes × List Int)) (tpos : List (Bytes × List (Int × Int))) : List (TP × Int) :=
+  tpos.flatMap fun s => match topicRef as s.1 with
+    | none => []
+    | some tr => s.2.filterMap fun po => if po.2 ≠ -1 then some (⟨tr, po.1⟩, po.2) else none
+
+theorem fold_ins (tr : Nat) : ∀ (pos : List (Int × Int)) (acc : List (TP × Consumed)) (k : TP),
+    assocGet (pos.foldl (fun acc (po : Int × Int) =>
+        match consumedOf po.2 with
+        | some co => assocSet acc ⟨tr, po.1⟩ ⟨co, false⟩
+        | none => acc) acc) k =
+      match (pos.filterMap fun po => if po.2 ≠ -1 then some ((⟨tr, po.1⟩ : TP), po.2) else none).reverse.find? (fun x => x.1 = k) with
+      | some x => some ⟨x.2 - 1, false⟩
+      | none => assocGet acc k := by
+  intro pos
+  induction pos with
+  | nil => intro acc k; simp
+  | cons po r ih =>
+    intro acc k
+    obtain ⟨p, o⟩ := po
+    rw [List.foldl_cons, ih]
+    by_cases ho : o = -1
+    · subst ho; simp [consumedOf]
+    · simp only [List.filterMap_cons, ne_eq, ho, not_false_eq_true, if_true, List.reverse_cons, List.find?_append]
+      cases hf : (r.filterMap fun po => if po.2 ≠ -1 then some ((⟨tr, po.1⟩ : TP), po.2) else none).reverse.find? (fun x => x.1 = k) with
+      | some x => simp
+      | none =>
+        simp only [ne_eq] at hf
+        simp only [Option.none_or, List.find?_cons, List.find?_nil, consumedOf, ne_eq, ho, not_false_eq_true, if_true]
+        by_cases hkey : (⟨tr, p⟩ : TP) = k
+        · simp only [hkey, decide_true]; subst hkey; exact aget_set_self _ _ _
+        · simp only [hkey, decide_false]; exact aget_set_other _ _ _ _ (Ne.symm hkey)
+
+
+/-- `load_consumed_offsets`: the loaded table holds, key by key, the last counted report minus one, nothing else;
+    offsets for topics that are not assigned and reports of −1 leave no trace; the loop never fails -/
+theorem C07_ins_ok (as : List (Bytes × List Int)) :
+    ∀ (tpos : List (Bytes × List (Int × Int))) (acc : List (TP × Consumed)) (w : W σ),
+      ∃ consumed, loadState.ins as tpos acc w = (w, Outcome.ok consumed) ∧ ∀ k, assocGet consumed k =
+        match (counted as tpos).reverse.find? (fun x => x.1 = k) with
+        | some x => some ⟨x.2 - 1, false⟩
+        | none => assocGet acc k := by
+  intro tpos
+  induction tpos with
+  | nil => intro acc w; exact ⟨acc, rfl, fun k => by simp [counted]⟩
+  | cons s r ih =>
+    intro acc w
+    obtain ⟨t, pos⟩ := s
+    simp only [loadState.ins]
+    cases htr : topicRef as t with
+    | none =>
+      obtain ⟨c, hc, hk⟩ := ih acc w
+      refine ⟨c, hc, fun k => ?_⟩
+      rw [hk k]; simp [counted, htr]
+    | some tr =>
+      obtain ⟨c, hc, hk⟩ := ih (pos.foldl (fun acc (po : Int × Int) =>
+        match consumedOf po.2 with
+        | some co => assocSet acc ⟨tr, po.1⟩ ⟨co, false⟩
+        | none => acc) acc) w
+      refine ⟨c, hc, fun k => ?_⟩
+      rw [hk k]
+      have hcnt : counted as ((t, pos) :: r) =
+          (pos.filterMap fun po => if po.2 ≠ -1 then some ((⟨tr, po.1⟩ : TP), po.2) else none) ++ counted as r := by
+        simp [counted, htr]
+      rw [hcnt, List.reverse_append, List.find?_append]
+      cases hf : (counted as r).reverse.find? (fun x => x.1 = k) with
+      | some x => simp
+      | none => simp only [Option.none_or]; exact fold_ins tr pos acc k
+
+theorem counted_ne (as : List (Bytes × List Int)) (tpos : List (Bytes × List (Int × Int))) (x : TP × Int)
+    (hx : x ∈ counted as tpos) : x.2 ≠ -1 := by
+  unfold counted at hx
+  obtain ⟨s, _, hx2⟩ := List.mem_flatMap.mp hx
+  split at hx2
+  · cases hx2
+  · obtain ⟨po, _, hpo⟩ := List.mem_filterMap.mp hx2
+    split at hpo
+    · rename_i hne; simp at hpo; rw [← hpo]; exact hne
+    · cases hpo
+
+/-- what the coordinator said for a partition key, over the whole reply: the last counted report, −1 for none -/
+def reportedCommit (as : List (Bytes × List Int)) (tpos : List (Bytes × List (Int × Int))) (k : TP) : Int :=
+  match (counted as tpos).reverse.find? (fun x => x.1 = k) with
+  | some x => x.2
+  | none => -1
+
+/-- from the coordinator's reply to the decision: **every assigned partition starts at the specified offset**, computed from
+    the reply to the group-offset fetch (any shape: unassigned topics, −1 entries, repeated entries - last counts) and the
+    two Offsets replies -/
+theorem C07_create (fb : Fallback) (as : List (Bytes × List Int)) (tpos : List (Bytes × List (Int × Int))) (mb : Int)
+    (latest earliest : List (Bytes × List (Int × Int))) (tps : List (Bytes × Int)) (w w1 w2 : W σ)
+    (consumed : List (TP × Consumed)) (fo : List (TP × FetchState))
+    (hnd : (tps.map (keyOf as)).Nodup)
+    (h1 : loadState.ins as tpos [] w = (w1, Outcome.ok consumed))
+    (h2 : loadState.go2 fb as consumed mb latest earliest tps [] w1 = (w2, Outcome.ok fo)) :
+    w2 = w ∧ ∀ tp ∈ tps, ∃ o,
+      specStart (committedOf (reportedCommit as tpos (keyOf as tp))) (reported earliest tp) (reported latest tp) fb = .ok o ∧
+      assocGet fo (keyOf as tp) = some ⟨o, mb⟩ := by
+  obtain ⟨c, hc, hk⟩ := C07_ins_ok as tpos [] w
+  rw [hc] at h1
+  simp only [Prod.mk.injEq, Outcome.ok.injEq] at h1
+  obtain ⟨hw1, hcc⟩ := h1
+  subst hw1 hcc
+  obtain ⟨hw2, hall, _⟩ := C07_assignment fb as c mb latest earliest tps w w2 fo hnd h2
+  refine ⟨hw2, fun tp htp => hall tp htp _ ?_⟩
+  rw [hk (keyOf as tp)]
+  unfold reportedCommit
+  cases hf : (counted as tpos).reverse.find? (fun x => x.1 = keyOf as tp) with
+  | none => simp [consumedOf, assocGet]
+  | some x =>
+    have hne := counted_ne as tpos x (List.mem_reverse.mp (List.mem_of_find?_eq_some hf))
+    simp [consumedOf, hne]
+
+example (w : W Unit) : ∃ c, loadState.ins exAs [([97], [(0, 5), (1, -1)]), ([99], [(0, 4)])] [] w = (w, Outcome.ok c) ∧
+    reportedCommit exAs [([97], [(0, 5), (1, -1)]), ([99], [(0, 4)])] ⟨0, 0⟩ = 5 ∧
+    reportedCommit exAs [([97], [(0, 5), (1, -1)]), ([99], [(0, 4)])] ⟨0, 1⟩ = -1 := ⟨_, rfl, by decide, by decide⟩
 end Kafka.Props.C07
